@@ -943,6 +943,12 @@ class GeneralSFTPFile(PrefixingLogMixin):
             def _bad(): raise createSFTPError(FX_BAD_MESSAGE, "new size is not a valid nonnegative integer")
             return defer.execute(_bad)
 
+        if size is not None:
+            # Truncating or extending the file is a change that close() must commit,
+            # even if no writeChunk follows. As for writeChunk, this is recorded when
+            # the request is made, not when it is executed.
+            self.has_changed = True
+
         d = defer.Deferred()
         def _set(ign):
             if noisy: self.log("_set(%r) in %r" % (ign, request), level=NOISY)
